@@ -16,10 +16,11 @@
                            tuples as in PeriodsOps; st/dig = status and body digest of the segment URL derived from that MPD
            shape           every period has the AdaptationSets of the single-period MPD (same order, contentType,
                            representation, addressing) and all were expandable
-           clamped         some difference did not fit 31 bits (value clamped)}                                      *)
+           clamped         some difference did not fit its range (value clamped; PeriodsOps arithmetic guard)
+           keep, url       keep: this instant of the scenario is requested in both passes (C06.history); url of the multi-period MPD}                                      *)
 EXTENDS TraceLib, PeriodsOps
-VARIABLES l, h, ids
-vars == <<l, h, ids>>
+VARIABLES l, h, ids, seen
+vars == <<l, h, ids, seen>>
 Clause(name, ok, detail) == ClauseAt(l, name, ok, detail)
 e == Trace[l]
 H == Trace[h]
@@ -27,18 +28,18 @@ SC == [N |-> H.N, dur |-> H.dur, vod0 |-> H.vod0, TS |-> H.TS, loopMS |-> H.loop
        tsbd |-> H.tsbd, ato |-> H.ato, snr |-> H.snr]
 PD == PDof(H.P)
 
-Init == l = 1 /\ h = 1 /\ ids = <<>> /\ MonitorInit
+Init == l = 1 /\ h = 1 /\ ids = <<>> /\ seen = <<>> /\ MonitorInit
 
 Hdr == /\ e.ev = "hdr"
        /\ Clause("hdr.admissible", /\ Admissible([N |-> e.N, dur |-> e.dur, vod0 |-> e.vod0, TS |-> e.TS, loopMS |-> e.loopMS,
                                                    tsbd |-> e.tsbd, ato |-> e.ato, snr |-> e.snr])
                                    /\ Len(e.dur) = e.N /\ e.P >= 1 /\ e.P <= 3600 /\ Len(e.segms) >= 1, "scenario header")
-       /\ h' = l /\ ids' = <<>>
+       /\ h' = l /\ ids' = <<>> /\ UNCHANGED seen
 
 Min(S) == CHOOSE x \in S : \A y \in S : x <= y
 Starts == [j \in 1..Len(e.pers) |-> e.pers[j].s]
 Fracs  == [j \in 1..Len(e.pers) |-> e.pers[j].f]
-KOf(j) == PeriodIdx(e.pers[j].s, PD)
+KOf(j) == PeriodIdx(e.pers[j].s, IF PD > 0 THEN PD ELSE 1)
 Views(A) == [p \in 1..Len(A.per) |-> [start |-> e.pers[p].s, pto |-> A.per[p].pto, segs |-> A.per[p].segs]]
 Kind(A) == IF A.tmpl THEN "tmpl" ELSE "tl"
 
@@ -72,13 +73,19 @@ Mpd == /\ e.ev = "mpd"
                     [pers |-> e.pers, PD |-> PD])
           /\ ids' = [k \in (DOMAIN ids) \cup { KOf(j) : j \in 1..Len(e.pers) } |->
                         IF k \in DOMAIN ids THEN ids[k] ELSE e.pers[Min({ j \in 1..Len(e.pers) : KOf(j) = k })].id]
-          /\ IF ~e.shape \/ e.clamped
+          /\ IF ~e.shape \/ e.clamped \/ ~(\A a \in 1..Len(e.as) : InRange(e.pers[1].s, e.as[a].ts, PD, Starts))
              THEN Clause("C06.partition", FALSE, [ct |-> "", rep |-> "", kind |-> "", why |-> "periods do not have the AdaptationSets of the single-period MPD / value out of range"])
              ELSE /\ \A a \in 1..Len(e.as) : ASClauses(a)
                   /\ Clause("C06.cont", ContOK(H.cont, [p \in 1..Len(e.pers) |-> [a \in 1..Len(e.as) |-> e.as[a].per[p].pc]]),
                             [requested |-> H.cont])
           /\ Clause("C06.pt", H.mode = "number" => (e.ptok /\ PtOK(e.pers[1].s, e.pers[Len(e.pers)].s, e.pt)),
                     [pt_rel_ms |-> e.pt, last_start |-> e.pers[Len(e.pers)].s, B |-> e.B])
+       \* C06.history (the property quantifies over histories): whether a periods value is accepted for an asset / MPD type
+       \* does not depend on what the server was asked before.  Instants marked `keep` are requested twice, in different
+       \* request orders, on the same server; both answers are judged by all clauses above, and their acceptance must agree.
+       /\ Clause("C06.history", (e.keep /\ e.url \in DOMAIN seen) => seen[e.url] = (e.stP = 200),
+                 [url |-> e.url, status |-> e.stP, why |-> "acceptance differs from the first request of the same URL"])
+       /\ seen' = IF e.keep /\ e.url \notin DOMAIN seen THEN (e.url :> (e.stP = 200)) @@ seen ELSE seen
        /\ UNCHANGED h
 
 Step == l <= Len(Trace) /\ (Hdr \/ Mpd) /\ l' = l + 1
